@@ -132,6 +132,9 @@ def run(ctx):
     from .guards_semantics import check_guard_semantics
 
     check_guard_semantics(ctx, "R6")
+    # every conversion returns a copy made with attrs.evolve: it exists only if an object in any reachable state
+    # (stored charge / electron count / spin with or without orbitals) can be constructed again from its own fields
+    ctx.borrow("c11", {"R5": "R7"})
 
 
 def _check_unrestriction(ctx, cu, mo_cls):
